@@ -123,7 +123,7 @@ Fixpoint run (s : store) (ops : list op) : list out :=
 
 Definition op_ok (T g : Z) (o : op) : Prop :=
   match o with
-  | OW ts c => ts <> 0 /\ T <= sec ts /\ ts <> g /\ is_del c = false
+  | OW ts c => ts <> 0 /\ T <= sec ts /\ ts <> g
   | OR now _ _ => now <> 0 /\ T <= sec now
   | OC _ _ => False
   end.
@@ -133,7 +133,7 @@ Theorem run_R T t0 k0 g ops : forall s1 s2, R T t0 k0 g s1 s2 -> Forall (op_ok T
 Proof.
   induction ops as [|o ops IH]; intros s1 s2 H F; auto.
   inversion F as [|? ? Ho Fr]; subst. destruct o as [ts c | now t k | csec chosen]; simpl in *.
-  - destruct Ho as (A & B & C & D). destruct (step_R T t0 k0 g ts A B C c D s1 s2 H) as [E X].
+  - destruct Ho as (A & B & C). destruct (step_R T t0 k0 g ts A B C c s1 s2 H) as [E X].
     rewrite E. f_equal. now apply IH.
   - destruct Ho as (A & B). rewrite (read_R T t0 k0 g now A B s1 s2 t k H). f_equal. now apply IH.
   - contradiction.
@@ -158,22 +158,22 @@ Definition late (T : Z) (o : op) : Prop :=
   match o with OW ts _ => T <= sec ts | OR now _ _ => T <= sec now | OC _ _ => True end.
 Definition not_gen (v : Z) (o : op) : Prop := match o with OW ts _ => ts <> v | _ => True end.
 
-(* well-formed traces: positive timestamps, no DEL (known finding), and after a compaction run with clock csec:
+(* well-formed traces: positive timestamps, and after a compaction run with clock csec:
    no later time is more than the lazy threshold behind csec, no later write re-uses the generation number of a dropped element *)
 Fixpoint wf (ops : list op) : Prop :=
   match ops with
   | [] => True
-  | OW ts c :: r => ts <> 0 /\ is_del c = false /\ wf r
+  | OW ts c :: r => ts <> 0 /\ wf r
   | OR now _ _ :: r => now <> 0 /\ wf r
   | OC csec chosen :: r =>
       Forall (late (csec - lazy_clean_secs - 1)) (strip r) /\
       (forall t k v sb, In (IElem t k v sb) chosen -> Forall (not_gen v) (strip r)) /\ wf r
   end.
 
-Lemma wf_basic ops : wf ops -> Forall (fun o => match o with OW ts c => ts <> 0 /\ is_del c = false | OR now _ _ => now <> 0 | OC _ _ => False end) (strip ops).
+Lemma wf_basic ops : wf ops -> Forall (fun o => match o with OW ts c => ts <> 0 | OR now _ _ => now <> 0 | OC _ _ => False end) (strip ops).
 Proof.
   induction ops as [|o ops IH]; simpl; auto. destruct o; simpl; intros H.
-  - destruct H as (A & B & C). constructor; auto.
+  - destruct H as (A & C). constructor; auto.
   - destruct H as (A & C). constructor; auto.
   - destruct H as (_ & _ & C). auto.
 Qed.
@@ -187,7 +187,7 @@ Qed.
 Theorem bg_invisible ops : forall s, Inv s -> wf ops -> run s ops = run s (strip ops).
 Proof.
   induction ops as [|o ops IH]; intros s I W; auto. destruct o as [ts c | now t k | csec chosen]; simpl in *.
-  - destruct W as (A & B & C). f_equal. apply IH; auto. now apply Inv_step.
+  - destruct W as (A & C). f_equal. apply IH; auto. now apply Inv_step.
   - destruct W as (A & C). f_equal. now apply IH.
   - destruct W as (L & N & C). rewrite IH; auto; [|now apply Inv_compact].
     symmetry. unfold compact. apply (run_drops (csec - lazy_clean_secs - 1)); auto.
@@ -196,7 +196,7 @@ Proof.
       pose proof (wf_basic ops C) as Bs. rewrite Forall_forall in *. intros o Ho.
       specialize (L o Ho). specialize (Bs o Ho).
       destruct it as [k | t k | t k v sb]; destruct o as [ts c | now t' k' | ? ?]; simpl in *; try tauto.
-      all: destruct Bs; repeat split; auto.
+      all: repeat split; auto.
       specialize (N t k v sb Hin). rewrite Forall_forall in N. apply (N _ Ho).
 Qed.
 
@@ -228,17 +228,17 @@ Qed.
 
 (* one command with ts at or after the expiry second: same reply as on the store without the key, and the two
    results stay indistinguishable for every later trace *)
-Theorem expired_like_absent_step s ts c t k h : Inv s -> ts <> 0 -> is_del c = false ->
+Theorem expired_like_absent_step s ts c t k h : Inv s -> ts <> 0 ->
   hdr_of s t k = Some h -> is_expired Compact h ts = true ->
   snd (step Compact s ts c) = snd (step Compact (erase s t k) ts c) /\
   forall ops, Forall (op_ok (sec ts) 0) ops ->
     run (fst (step Compact s ts c)) ops = run (fst (step Compact (erase s t k) ts c)) ops.
 Proof.
-  intros I Hts Hd H E.
+  intros I Hts H E.
   assert (D : hdead (sec ts) h) by (apply is_expired_spec in E; unfold hdead; lia).
   destruct (hdr_of_garbage (sec ts) s t k h H D) as (G & Er & Fo).
   pose proof (drop_R (sec ts) s _ I G) as X. rewrite Fo, Er in X. simpl in X.
-  destruct (step_R (sec ts) t k 0 ts Hts (Z.le_refl _) Hts c Hd s (erase s t k) X) as [A B].
+  destruct (step_R (sec ts) t k 0 ts Hts (Z.le_refl _) Hts c s (erase s t k) X) as [A B].
   split; auto. intros ops F. now apply (run_R (sec ts) t k 0).
 Qed.
 
